@@ -51,6 +51,11 @@ type vpAvsIn struct {
 	AssetsOK bool
 	Cfgs     []vpAssetCfg // nil + CfgsNone => lookup failed
 	CfgsNone bool
+	// the AVS's assets with their decimals (GetAssetsDecimal), whatever the oracle says about them:
+	// the Lean model resolves the prices itself from the oracle's token table and latest rounds
+	// (op vp.oracle); DecsNone: GetAssetsDecimal failed
+	Decs     []vpAssetCfg
+	DecsNone bool
 	MinSelf  *big.Int // nil => error
 	// independent view for the monitor
 	RawPrice map[string]vpAssetCfg
@@ -71,10 +76,14 @@ func vpRawCfg(c *Chain, ctx sdk.Context, oparams oracletypes.Params, a string) (
 	if a == assetstypes.ExocoreAssetID {
 		return cfg, true, true
 	}
-	tid := oparams.GetTokenIDFromAssetID(a)
+	// the binding asset id -> oracle token is part of what is under test ("latest oracle price" of THIS
+	// asset): the monitor does not ask Params.GetTokenIDFromAssetID, it looks the id up itself — the
+	// token whose comma-separated asset list has an element EQUAL to the id (dom_votingpower_binding.go)
+	tid := vpTokenIDOfAsset(oparams, a)
 	if name, ok := vpGatewayTokens[a]; ok {
-		// registered through the gateway together with this oracle token (dom_votingpower_regtoken.go): the
-		// binding asset id -> token is what is under test there, so the token is found by its name
+		// bound by the harness to a token it knows by NAME (registered through the gateway together with
+		// this oracle token, dom_votingpower_regtoken.go; binding histories, dom_votingpower_binding.go):
+		// the intention of the registration decides, not the stored list
 		tid = vpTokenIDByName(oparams, name)
 	}
 	if tid > 0 {
@@ -107,6 +116,15 @@ func vpReadInputs(c *Chain, ctx sdk.Context) ([]vpAvsIn, []vpOpAssets) {
 		if in.AssetsOK {
 			decimals, err1 := c.App.AssetsKeeper.GetAssetsDecimal(ctx, assets)
 			prices, err2 := c.App.OracleKeeper.GetMultipleAssetsPrices(ctx, assets)
+			if err1 != nil {
+				in.DecsNone = true
+			} else {
+				for _, a := range sortedKeys(assets) {
+					if d, ok := decimals[a]; ok {
+						in.Decs = append(in.Decs, vpAssetCfg{Asset: a, AssetDec: int64(d)})
+					}
+				}
+			}
 			if err1 != nil || (err2 != nil && !errors.Is(err2, oracletypes.ErrGetPriceRoundNotFound)) {
 				in.CfgsNone = true
 			} else {
@@ -159,12 +177,12 @@ func vpFmtInputs(evs []string, ins []vpAvsIn, ops []vpOpAssets) string {
 		if in.AssetsOK {
 			ok = 1
 		}
-		if in.CfgsNone || !in.AssetsOK {
+		if in.DecsNone || !in.AssetsOK {
 			fmt.Fprintf(&b, " %s %d -1", in.Avs, ok)
 		} else {
-			fmt.Fprintf(&b, " %s %d %d", in.Avs, ok, len(in.Cfgs))
-			for _, c := range in.Cfgs {
-				fmt.Fprintf(&b, " %s %s %d %d", c.Asset, c.Price, c.PriceDec, c.AssetDec)
+			fmt.Fprintf(&b, " %s %d %d", in.Avs, ok, len(in.Decs))
+			for _, c := range in.Decs {
+				fmt.Fprintf(&b, " %s %d", c.Asset, c.AssetDec)
 			}
 		}
 		if in.MinSelf == nil {
@@ -271,7 +289,13 @@ func (r *vpRunner) block(d time.Duration) bool {
 	c, env := r.c, r.env
 	var ins []vpAvsIn
 	var ops []vpOpAssets
-	res := distrStep(c, d, func(ctx sdk.Context) { ins, ops = vpReadInputs(c, ctx) })
+	var orc vpOracleView
+	var bind []vpBindingCheck
+	res := distrStep(c, d, func(ctx sdk.Context) {
+		ins, ops = vpReadInputs(c, ctx)
+		orc = vpReadOracle(c, ctx)
+		bind = vpCheckBinding(c, ctx, ins)
+	})
 	if res.Halt != "" {
 		r.op("vp.note halt", "ok")
 		env.Violate("C05.halt", haltSig(res.Halt), "block processing panicked: "+res.Halt, r.hist)
@@ -279,7 +303,13 @@ func (r *vpRunner) block(d time.Duration) bool {
 	}
 	evs := epochEvents(res.Begin.Events)
 	after := vpReadTable(c, c.Ctx)
+	// the oracle's token table and latest rounds as committed before this block: the model binds every
+	// asset to its token and selects the price itself (Model/VPOracle.lean)
+	r.op("vp.oracle "+orc.String(), "ok")
 	r.op("vp.block "+vpFmtInputs(evs, ins, ops), after.String())
+	// ---------------- monitor: the price the code hands out for an asset is the latest round of the token the
+	// asset is bound to (evaluated every block for every asset of every AVS, dom_votingpower_binding.go)
+	r.reportBinding(bind)
 	// ---------------- monitors: the property's formula on the real state
 	opAssets := map[string][]vpAssetState{}
 	for _, o := range ops {
@@ -506,6 +536,12 @@ func domVotingPower(env *Env) error {
 	vpScenarioSlashedSelf(env) // dom_votingpower_multi.go
 	for k := 0; k < env.Int("gwtokens", 2); k++ {
 		vpScenarioGatewayToken(env, k) // dom_votingpower_regtoken.go
+	}
+	// which token prices an asset: assets on several client chains whose ids are textually related, token lists of
+	// several ids, token tables in every order (dom_votingpower_binding.go; own RNG streams)
+	vpScenarioSameAddressTwoChains(env)
+	for k := 0; k < env.Int("binding", max(4, n/5)); k++ {
+		vpBindingHistory(env, k, maxBlocks)
 	}
 	for hi := 0; hi < n; hi++ {
 		seed := env.Report.Seed*1000 + uint64(hi)
